@@ -136,6 +136,11 @@ class Auth(object):
         salt = data[:salt_length]
         expected = data[salt_length:]
 
+        # the embedded lengths must describe the embedded data. in particular
+        # an empty digest would compare equal for every password
+        if length < 1 or len(expected) != length or len(salt) != salt_length:
+            raise ValueError("invalid password hash")
+
         kdf = scrypt.Scrypt(salt, length, N, r, p, backend=default_backend())
 
         result = False
